@@ -29,8 +29,14 @@ func loadsOfParam(v ssa.Value, param *ssa.Parameter, seen map[ssa.Value]bool) ([
 		return out, true
 	case *ssa.UnOp:
 		if x.Op == token.MUL {
-			if ia, ok := x.X.(*ssa.IndexAddr); ok && ia.X == ssa.Value(param) {
-				return []ssa.Value{ia.Index}, true
+			if ia, ok := x.X.(*ssa.IndexAddr); ok {
+				base := ia.X
+				if sl, isSl := base.(*ssa.Slice); isSl { // pts := path[first:end] — a window of the input is the input
+					base = sl.X
+				}
+				if base == ssa.Value(param) {
+					return []ssa.Value{ia.Index}, true
+				}
 			}
 		}
 	}
@@ -158,6 +164,59 @@ func ruleTrimCollinear(rule string) func(*Ctx) {
 					}
 					c.check(badT == "", rule+".only", rule+".only:TrimCollinear64:main-triple", ci.Pos(), "TrimCollinear64",
 						"tests (last kept vertex, path[i], path[i+1])", badT, "collinearity must be judged against the CURRENT neighbours, i.e. the last retained vertex and the next input vertex")
+				}
+			}
+		}
+		// closing test of a closed path: (last KEPT vertex, final input vertex, first kept vertex)
+		{
+			nClose := 0
+			for _, b := range f.Blocks {
+				inLoop := false
+				for _, l := range loops {
+					if l.blocks[b] {
+						inLoop = true
+					}
+				}
+				if inLoop {
+					continue
+				}
+				for _, in := range b.Instrs {
+					ci, ok := in.(ssa.CallInstruction)
+					if !ok || calleeName(c, ci) != "isCollinear" {
+						continue
+					}
+					a := ci.Common().Args
+					if _, isInput := loadsOfParam(a[1], path, map[ssa.Value]bool{}); !isInput {
+						continue
+					}
+					// third point: result[0]
+					u2, ok2 := a[2].(*ssa.UnOp)
+					if !ok2 {
+						continue
+					}
+					ia2, ok2 := u2.X.(*ssa.IndexAddr)
+					if !ok2 || !isConstInt(ia2.Index, 0) {
+						continue
+					}
+					if _, fromPath := loadsOfParam(a[2], path, map[ssa.Value]bool{}); fromPath {
+						continue
+					}
+					nClose++
+					okFirst := false
+					if _, isPhi := a[0].(*ssa.Phi); isPhi {
+						okFirst = true // the carried `last`
+					}
+					if u, isU := a[0].(*ssa.UnOp); isU && u.Op == token.MUL {
+						if ia, isIA := u.X.(*ssa.IndexAddr); isIA && isLenMinus1(ia.Index, ia.X) {
+							if _, fromPath := loadsOfParam(a[0], path, map[ssa.Value]bool{}); !fromPath {
+								okFirst = true // result[len(result)-1]
+							}
+						}
+					}
+					c.check(okFirst, rule+".only", fmt.Sprintf("%s.only:TrimCollinear64:closing-triple#%d", rule, nClose), ci.Pos(), "TrimCollinear64",
+						"the closing test is (last kept vertex, final input vertex, first kept vertex)",
+						"the closing test's first point is an INPUT vertex, not the last vertex that was kept: after a dropped run the final vertex is judged against a neighbour that is no longer in the result",
+						"collinearity must be judged against the CURRENT neighbours, i.e. the last retained vertex and the first retained vertex")
 				}
 			}
 		}
